@@ -26,6 +26,7 @@ package yaml
 //@   mode ctl
 //@   assigns alloc
 //@   ensures [value] err == nil ==> v == yamlValueOf(yNodeText(node))
+//@   ensures [ok] (err == nil) == gvOK(node)
 //@
 //@ func MarshalFile(f, addNewLine) returns (r)
 //@   mode ctl
